@@ -38,6 +38,10 @@ TEMPLATES = {
         "from inline_snapshot import snapshot\n\ndef test_a():\n    assert tuple(xs) == snapshot((c0, c1,))\n    assert x0 <= snapshot(c2)\n"
         "    assert {1: k0, 2: x0} == snapshot({1: c3,\n\n   2: c2})   # dict\n"
     ),
+    "parenthesized": (
+        "from inline_snapshot import snapshot\n\ndef test_a():\n    assert xs == snapshot([(c0), ((c1))])\n    assert x0 <= snapshot((c2))\n"
+        "    assert {1: k0, 2: x0} == snapshot({(1): (c3), 2: (c2), (3): (4)})   # dict\n"
+    ),
     "crlf": (
         "from inline_snapshot import snapshot\r\n\r\ndef test_a():\r\n    assert xs == snapshot([c0, c1])  \r\n    assert x0 <= snapshot(c2)\r\n    assert k0 == snapshot(c3)\r\n"
     ),
@@ -148,6 +152,39 @@ def import_position_case(fname, leafvals):
         return world.mask_snapshot_args(after.replace("\nfrom inline_snapshot import HasRepr\n", "", 1)) == world.mask_snapshot_args(before)
 
 
+HAS_IMPORT_FILES = {
+    # the name the new code needs is already imported - somewhere
+    "late_after_statement": 'import sys\nsys.path.insert(0, ".")\nfrom inline_snapshot import snapshot, HasRepr\n\ndef test_n():\n    assert [x0, odd] == snapshot([c0, HasRepr(Weird, "<Weird 1>")])\n',
+    "late_own_line": 'from inline_snapshot import snapshot\nimport pytest\n\npytest.importorskip("os")\nfrom inline_snapshot import HasRepr\n\ndef test_n():\n    assert [x0, odd] == snapshot([c0, HasRepr(Weird, "<Weird 1>")])\n',
+    "after_docstring_and_code": '"""doc"""\nX = 1\nfrom inline_snapshot import snapshot\nfrom inline_snapshot import HasRepr\n\ndef test_n():\n    assert [x0, odd] == snapshot([c0, HasRepr(Weird, "<Weird 1>")])\n',
+    "first_block": 'from inline_snapshot import snapshot\nfrom inline_snapshot import HasRepr\n\ndef test_n():\n    assert [x0, odd] == snapshot([c0, HasRepr(Weird, "<Weird 1>")])\n',
+    "late_and_new_hasrepr": 'import sys\nY = 2\nfrom inline_snapshot import snapshot, HasRepr\n\ndef test_n():\n    assert [x0, odd, odd] == snapshot([c0, HasRepr(Weird, "<Weird 1>")])\n',
+}
+
+
+def has_import_case(fname, leafvals):
+    """a file that already imports the name its snapshots use gets no further import, wherever that import is written:
+    the only edit is inside the snapshot arguments"""
+    from harness.support import Weird
+
+    world.install_plugin_shims()
+    ns = dict(leafvals)
+    ns["odd"] = Weird(1)
+    ns["Weird"] = Weird
+    world.reset(ns)
+    r = world.plugin_session({"test_1.py": HAS_IMPORT_FILES[fname]}, cli="fix")
+    if r.finish_error is not None:
+        return False
+    with world.NoTracing():
+        before, after = str(r.texts["test_1.py"]), str(world.text_after(r, "test_1.py"))
+        PathLog.record("hasimport" + fname + after, nontrivial=before != after, sample={"file": fname, "rewritten": after[:260]})
+        try:
+            compile(after, "test_1.py", "exec")
+        except SyntaxError:
+            return False
+        return world.mask_snapshot_args(after) == world.mask_snapshot_args(before)
+
+
 def import_case(order, leafvals):
     """a session that rewrites several files: the file whose new code needs `HasRepr` gets exactly that import line, a file
     that needs nothing is untouched outside its snapshot arguments (whatever the order of the files)"""
@@ -180,7 +217,7 @@ def import_case(order, leafvals):
     return ok
 
 
-GLB = {"layout_case": layout_case, "import_case": import_case, "import_position_case": import_position_case, "__name__": "harness.c03b"}
+GLB = {"has_import_case": has_import_case, "layout_case": layout_case, "import_case": import_case, "import_position_case": import_position_case, "__name__": "harness.c03b"}
 
 
 def conditions(tier):
@@ -202,6 +239,10 @@ def conditions(tier):
         name = f"import_position_{fname}"
         conds.append(Cond(name, mkfn(name, [("x0", "int")], f"return import_position_case({fname!r}, {{'x0': x0}})", GLB), timeout=600, group="imports",
                           bounds=f"file layout `{fname}`: the HasRepr import is inserted; the file compiles, keeps its docstring, nothing else changes"))
+    for fname in HAS_IMPORT_FILES:
+        name = f"import_present_{fname}"
+        conds.append(Cond(name, mkfn(name, [("x0", "int"), ("c0", "int")], f"return has_import_case({fname!r}, {{'x0': x0, 'c0': c0}})", GLB), timeout=600, group="imports",
+                          bounds=f"file layout `{fname}`: HasRepr is already imported (possibly after other statements); a value is fixed; no import is added, nothing outside the arguments changes"))
     for order in range(6):
         name = f"imports_{order}"
         conds.append(Cond(name, mkfn(name, [("x0", "int"), ("x1", "int"), ("c0", "int")], f"return import_case({order}, {{'x0': x0, 'x1': x1, 'c0': c0}})", GLB), timeout=600, group="imports",
